@@ -1,11 +1,14 @@
 """C18 - White and Black, and left and right, are treated symmetrically (premises only)."""
-from . import symrules
+from . import symrules, emitrules, genrules
 from .c20 import ctfe_rule
 
 
 def run(ctx):
     facts = ctx.facts("dev")
     ctx.decided += [
+        "Y5/Y6 the generator and the validator of both colour instances equal one reference that is written once and is itself "
+        "symmetric under the colour flip and the left-right mirror (rules/genrules.py _ref_semilegal, wf_ref): so the semilegal move "
+        "sets of mirrored positions are mirror images (C06/G6, G7 re-run)",
         "Y1 every per-colour geometry constant of Black is the mirror of White's and anchored to the rules (compile-time witness); pawn "
         "attack tables are rank mirrors, all near-attack tables are file-symmetric; pawns::advance_* tabulated: Black = mirror of White, "
         "left = file mirror of right",
@@ -21,3 +24,5 @@ def run(ctx):
     symrules.dispatch_rule(ctx, facts, "Y2")
     symrules.inventory_rule(ctx, facts, "Y3")
     symrules.diag_index_rule(ctx, facts, "Y4")
+    emitrules.emitter_rule(ctx, facts, "Y5")
+    genrules.semilegal_rule(ctx, facts, "Y6", thorough=True)
